@@ -10,6 +10,7 @@
   Lines are lists of characters (runes), files lists of lines.
 -/
 import CocaVerif.Base.GoMap
+import CocaVerif.Gen.Refactor
 
 namespace CocaVerif.Refactor
 
@@ -35,7 +36,8 @@ def applySites (new : List Char) (lines : List (List Char)) (sites : List Site) 
   sites.foldlM (applySite new) lines
 
 /-- the order of the edits: later lines first, and inside a line from the right; each site once -/
-def siteLt (a b : Site) : Bool := a.line > b.line || (a.line == b.line && a.s > b.s)
+def siteLt (a b : Site) : Bool :=
+  if a.line != b.line then Gen.Refactor.laterLineFirst a.line b.line else Gen.Refactor.rightmostFirst a.s b.s
 def insertSite (x : Site) : List Site → List Site
   | [] => [x]
   | y :: ys => if siteLt y x then y :: insertSite x ys else x :: y :: ys
@@ -46,7 +48,8 @@ def dedupAdjacent : List Site → List Site
   | l => l
 
 def renameFile (new : List Char) (lines : List (List Char)) (sites : List Site) : Option (List (List Char)) :=
-  applySites new lines (dedupAdjacent (sortSites sites))
+  let sorted := if Gen.Refactor.renameSortsEdits then sortSites sites else sites
+  applySites new lines (if Gen.Refactor.renameSkipsRepeatedSite then dedupAdjacent sorted else sorted)
 
 /-! ### unused imports -/
 
@@ -56,7 +59,9 @@ def lastSeg (name : String) : String := (name.splitOn ".").getLast!
 def errorLines (imports : List (String × Nat)) (names : List String) : List Nat :=
   imports.filterMap fun imp =>
     let last := lastSeg imp.1
-    if last == "*" || names.contains last then none else some imp.2
+    let ok := if Gen.Refactor.wildcardTestedInLoop then names.any (fun n => n == last || last == "*")
+              else last == "*" || names.contains last
+    if ok then none else some imp.2
 
 /-- `append(array[:i], array[i+1:]...)`; `none` where Go panics -/
 def removeAt {α : Type} (ls : List α) (i : Nat) : Option (List α) :=
